@@ -181,6 +181,20 @@ impl RtpsWriterProxy {
         self.frag_buffer.retain(|f| f.writer_sn() != a_seq_num);
     }
 
+    /// Same effect as calling [`Self::irrelevant_change_set`] for every sequence number in
+    /// `start..end`, in time independent of the size of the range.
+    pub fn irrelevant_change_range(&mut self, start: SequenceNumber, end: SequenceNumber) {
+        if end <= start {
+            return;
+        }
+        let next_expected = self.available_changes_max() + 1;
+        if start <= next_expected && end > next_expected {
+            self.highest_received_change_sn = end - 1;
+        }
+        self.frag_buffer
+            .retain(|f| f.writer_sn() < start || f.writer_sn() >= end);
+    }
+
     pub fn lost_changes_update(&mut self, first_available_seq_num: SequenceNumber) {
         // FOREACH change IN this.changes_from_writer
         // SUCH-THAT ( change.status == UNKNOWN OR change.status == MISSING
